@@ -6,7 +6,7 @@ JOBS = 16
 UNOPTIMISED_BUILD = True
 ENTRIES = ["addr", "addrnew", "mbox", "mboxes", "mboxname", "ctype", "cdisp", "date", "dateparse", "url", "aurl", "resp", "hval", "hname",
            "bodys", "bodyb", "bodyenc", "msg", "msgnofrom", "msgid", "boundary", "attach", "dkim", "dkimkey", "json", "jsonout", "sinfo",
-           "clientid", "creds"]
+           "clientid", "creds", "rrclose", "arrclose"]
 CORRESPONDENCE = ("every model function of lean/LettreVerif/Model is total (accepted by Lean's termination checker, no partial definitions); the "
                   "harness runs the corresponding public entry points of lettre in threads with 2 MiB stacks under catch_unwind, optimised and "
                   "unoptimised builds, and the driver rejects any PANIC / crash; every other property's operations report PANIC the same way")
@@ -54,6 +54,8 @@ TEMPLATES = {
     "sinfo": ["250-host\r\n250-AUTH PLAIN LOGIN\r\n250 8BITMIME\r\n", "250 \r\n", "250-\r\n250  \r\n"],
     "clientid": ["client.example", "[127.0.0.1]"],
     "creds": ["user", "Username:", "UGFzc3dvcmQ6"],
+    "rrclose": ["250 ok\r\n", "250-first\r\n", "250-first\r\n250-sec", "25", "", "250 ok", "250-a\r\n250-b\r\n250-c\r\n"],
+    "arrclose": ["250 ok\r\n", "250-first\r\n", "250-first\r\n250-sec", "25", "", "250 ok"],
 }
 BOUNDARY_CHARS = ["\x00", "\r", "\n", "\r\n", "\t", " ", "\x7f", "\"", "\\", "<", ">", "@", ":", ";", ",", "(", ")", "[", "]", "=", "?", "%", "é", " ", "\U0001f600", "\xff"]
 SCALE_UNITS = {
